@@ -34,9 +34,15 @@ func (k Keeper) OnCollectFee(ctx sdk.Context, pool types.Pool, fee sdk.Coins) er
 
 	// handling the case, pool does not enough liquidity to swap fees to revenue token when liquidity is being fully removed
 	cacheCtx, write := ctx.CacheContext()
+	// the swap works on the pool assets it shares with the caller's pool: keep them, so that a swap
+	// that fails (and is not written) does not leave its balance changes in the caller's pool
+	poolAssets := make([]types.PoolAsset, len(pool.PoolAssets))
+	copy(poolAssets, pool.PoolAssets)
 	err = k.SwapFeesToRevenueToken(cacheCtx, pool, revenueAmount)
 	if err == nil {
 		write()
+	} else {
+		copy(pool.PoolAssets, poolAssets)
 	}
 	return nil
 }
